@@ -139,26 +139,72 @@ func Data(a *AVP) (datatype.Type, error) {
 }
 
 // ToGo builds a library AVP through the public constructor.
-func ToGo(a *AVP) (*diam.AVP, error) {
-	d, err := Data(a)
+func ToGo(a *AVP) (*diam.AVP, error) { return ToGoStyle(a, "newavp") }
+
+// ToGoStyle builds a library AVP the way an application may: "newavp" = diam.NewAVP with the
+// flags as given; "novbit" = diam.NewAVP with the V bit left out for a vendor AVP (the
+// constructor sets it); "literal" = a struct literal (Length left zero). Grouped members are
+// built in the same style.
+func ToGoStyle(a *AVP, style string) (*diam.AVP, error) {
+	d, err := dataStyle(a, style)
 	if err != nil {
 		return nil, err
 	}
+	switch style {
+	case "literal":
+		return &diam.AVP{Code: U32(a.Code), Flags: uint8(a.Flags), VendorID: U32(a.Vendor), Data: d}, nil
+	case "novbit":
+		fl := uint8(a.Flags)
+		if U32(a.Vendor) != 0 {
+			fl &^= 0x80
+		}
+		return diam.NewAVP(U32(a.Code), fl, U32(a.Vendor), d), nil
+	}
 	return diam.NewAVP(U32(a.Code), uint8(a.Flags), U32(a.Vendor), d), nil
+}
+
+func dataStyle(a *AVP, style string) (datatype.Type, error) {
+	if a.Kind != "grouped" || style == "newavp" {
+		return Data(a)
+	}
+	g := &diam.GroupedAVP{}
+	for i := range a.Kids {
+		k, err := ToGoStyle(&a.Kids[i], style)
+		if err != nil {
+			return nil, err
+		}
+		g.AVP = append(g.AVP, k)
+	}
+	return g, nil
 }
 
 // NewMessage builds a library message from the abstract one through the public API
 // (NewMessage + AddAVP). Identifiers are stored after construction because
 // NewMessage replaces zero identifiers by random ones.
 func NewMessage(m *Msg, dp *dict.Parser) (*diam.Message, error) {
+	return NewMessageStyle(m, dp, "newavp")
+}
+
+// NewMessageStyle: see ToGoStyle; "novbit" additionally adds top-level AVPs with Message.NewAVP.
+func NewMessageStyle(m *Msg, dp *dict.Parser, style string) (*diam.Message, error) {
 	gm := diam.NewMessage(U32(m.Hdr.Cmd), uint8(m.Hdr.Flags), U32(m.Hdr.App), U32(m.Hdr.HbH), U32(m.Hdr.E2E), dp)
 	gm.Header.HopByHopID = U32(m.Hdr.HbH)
 	gm.Header.EndToEndID = U32(m.Hdr.E2E)
 	gm.Header.Version = uint8(m.Hdr.Version)
 	for i := range m.AVPs {
-		a, err := ToGo(&m.AVPs[i])
+		a, err := ToGoStyle(&m.AVPs[i], style)
 		if err != nil {
 			return nil, err
+		}
+		if style == "novbit" && i%2 == 0 {
+			fl := a.Flags
+			if a.VendorID != 0 {
+				fl &^= 0x80
+			}
+			if _, err := gm.NewAVP(a.Code, fl, a.VendorID, a.Data); err != nil {
+				return nil, err
+			}
+			continue
 		}
 		gm.AddAVP(a)
 	}
